@@ -1,4 +1,4 @@
-package main
+package schedcore
 
 import (
 	"a0verif/plan"
